@@ -17,7 +17,8 @@ deriving Inhabited
 def dumpObj (h : Heap) (o : Obj) : String :=
   let vv := h.vvOf o
   let first := match vv.first with | some v => toString v.data.length | none => "nil"
-  s!"{o.size}:{toHexN vv.toView}:{first}"
+  let spare := match vv.views.getLast? with | some v => v.extra.length | none => 0
+  s!"{o.size}:{toHexN vv.toView}:{first}:{spare}"
 
 def dump (h : Heap) : String := " ".intercalate (h.objs.map (dumpObj h))
 
@@ -93,12 +94,12 @@ def modelStep (st : St) (toks : List String) : St × String :=
 
 /-! ### oracle: the implementation's dump against the byte-string spec -/
 
-def parseDump (s : String) : List (Int × List Nat × Option Nat) :=
+def parseDump (s : String) : List (Int × List Nat × Nat) :=
   (s.splitOn " ").filterMap fun o =>
     match o.splitOn ":" with
-    | [sz, h, f] => do
-      let sz ← parseInt sz; let b ← hexN h
-      pure (sz, b, f.toNat?)
+    | [sz, h, _, sp] => do
+      let sz ← parseInt sz; let b ← hexN h; let sp ← sp.toNat?
+      pure (sz, b, sp)
     | _ => none
 
 def setNth {α} (l : List α) (i : Nat) (x : α) : List α := l.set i x
@@ -129,7 +130,11 @@ def oracleStep (st : St) (toks : List String) (res : String) : St × String :=
       | some (b, c) =>
         let b' := if op == "trim" then Spec.trimFront b n else Spec.capLength b n
         let spec := setNth st.spec i (b', c)
-        ({ st with spec := spec }, check spec)
+        -- an effective cap leaves no spare capacity behind the last chunk: a capped view cannot be
+        -- re-extended to expose bytes beyond the cap
+        let spareBad := op == "cap" && c && n ≤ (b.length : Int) &&
+          (objs[i]?.map fun o => o.2.2 != 0).getD false
+        ({ st with spec := spec }, if spareBad then "bad cap-reextendable" else check spec)
     | _, _ => (st, "bad-op")
   | ["rmfirst", i] =>
     match i.toNat? with
